@@ -36,6 +36,9 @@ var hopByHop = map[string]bool{
 }
 
 // headers owned by the proxy chain or by message framing: never compared as end-to-end headers
+// forwarding headers the proxy chain writes by itself; a requestHeaders.set entry for one of them is a declared rewrite
+var forwardingNames = map[string]bool{"X-Forwarded-For": true, "X-Forwarded-Host": true, "X-Forwarded-Proto": true}
+
 var framingOrProxyOwned = map[string]bool{
 	"Content-Length": true, "X-Forwarded-For": true, "X-Forwarded-Host": true, "X-Forwarded-Proto": true, "Forwarded": true,
 }
@@ -402,7 +405,13 @@ func judgeRequest(rc *routeCfg, g *genReq, userIP string, sr *seenReq) []verdict
 	}
 	for k, wv := range want {
 		gv, ok := sr.Header[k]
+		if declared[k] && forwardingNames[k] {
+			run.Count("configured_forwarding_headers_compared", 1)
+		}
 		switch {
+		case declared[k] && forwardingNames[k] && !eqList(gv, wv):
+			// a configured header wins over the value the proxy chain would put there by itself
+			bad("req-configured-header-overwritten", "requestHeaders.set declares %s: %q, backend saw %s (user address %s, Host sent %q)", k, wv[0], short(gv), userIP, g.Host)
 		case !ok && declared[k]:
 			bad("req-config-header-missing", "configured request header %s: %q did not reach the backend", k, wv)
 		case !ok:
@@ -427,10 +436,10 @@ func judgeRequest(rc *routeCfg, g *genReq, userIP string, sr *seenReq) []verdict
 		}
 		bad("req-header-added", "backend saw header %s: %s which the user did not send and no configuration declares", k, short(sr.Header[k]))
 	}
-	// X-Forwarded-For = what the user sent, extended by the user's address
+	// X-Forwarded-For = what the user sent, extended by the user's address (unless a configuration sets the header)
 	wantXFF := append(flattenList(sent["X-Forwarded-For"]), userIP)
 	gotXFF := flattenList(sr.Header["X-Forwarded-For"])
-	if !eqList(gotXFF, wantXFF) {
+	if !declared["X-Forwarded-For"] && !eqList(gotXFF, wantXFF) {
 		key := "req-xff-wrong"
 		switch {
 		case len(gotXFF) == 0:
